@@ -450,3 +450,7 @@ Proof. apply hs_shapeK. Qed.
 Lemma in_bounds_pos lo x : 0 < lo -> in_bounds lo x -> 0 < x.
 Proof. intros Hl [H _]. eapply Qclt_le_trans; eassumption. Qed.
 End HS.
+
+(* for the examples *)
+Lemma below2 (P : nat -> Prop) : P 0%nat -> P 1%nat -> forall m, (m < 2)%nat -> P m.
+Proof. intros H0 H1 [|[|m]] Hm; [exact H0|exact H1|lia]. Qed.
